@@ -79,7 +79,7 @@ PROPS = {
         "mc": {"quick": [mc("Core-addr-2x2", must_cover=SUBMIT), mc("Core-sc-2x2", kinds="InitKindsSC", must_cover=SUBMITW)],
                "thorough": [mc("Core-addr-2x3", maxops=3, must_cover=SUBMIT), mc("Core-sc-2x3", maxops=3, kinds="InitKindsSC"),
                             mc("Core-weak-3x2", clients=C3, kinds="InitKindsWeak", cfgs="CfgsB1")]},
-        "gen": {"quick": [gen("g-addr-b1-2x2", "Main_Addr2_B1", ops=("send", "call", "ping"))], "thorough": [gen("g-addr-b1-2x2", "Main_Addr2_B1", ops=("send", "call", "ping")), gen("g-sc-b1-2x2", "Main_SC_B1", ops=("send", "call"), scripts="ScriptsCore"), gen("g-addr-b0-2x3", "Main_Addr2_B0", maxops=3, ops=("send", "call"))]},
+        "gen": {"quick": [gen("g-addr-b1-2x2", "Main_Addr2_B1", ops=("send", "call", "ping")), gen("g-ping-b1-2x2", "Main_Addr2_B1", ops=("send", "ping"), scripts="ScriptsCore")], "thorough": [gen("g-addr-b1-2x2", "Main_Addr2_B1", ops=("send", "call", "ping")), gen("g-sc-b1-2x2", "Main_SC_B1", ops=("send", "call"), scripts="ScriptsCore"), gen("g-addr-b0-2x3", "Main_Addr2_B0", maxops=3, ops=("send", "call"))]},
         "families": [("core", 250, 2500), ("timers", 60, 600), ("stream", 60, 600)],
         "relevant": r'"ev":"h_begin"', "relevant_min": 2,
     },
@@ -243,7 +243,7 @@ PROPS = {
                "thorough": [mc("Own-3x3", maxops=3, clients=C3, ops=OWNOPS, scripts="ScriptsStop", cfgs="CfgsOwn", kinds="InitKindsOwn"),
                             mc("Own-abandon-2x3", maxops=3, ops=OWNOPS + ("abandon",), scripts="ScriptsPlain", cfgs="CfgsOwn", kinds="InitKindsOwn", must_cover=("Abandon",))]},
         "gen": {"quick": [gen("g-own-2x2", "Main_Own_B1", ops=("send", "join", "consume", "stop", "detach"))], "thorough": [gen("g-own-2x3", "Main_Own_B1", maxops=3, ops=("send", "join", "consume", "stop", "detach", "drop"))]},
-        "families": [("life", 250, 2500), ("fail", 100, 1000)],
+        "families": [("life", 250, 2500), ("fail", 100, 1000), ("stream", 100, 1000)],
         "relevant": r'"op":"(join|consume|consume_sync|detach)"', "relevant_min": 1,
     },
 }
